@@ -343,12 +343,29 @@ def check_partition(case, ctx: Ctx):
     chunks = [data[a:b] for a, b in zip(bounds[:-1], bounds[1:])]
     via = case["via"]
     ctx.label("via_" + via, f"chunks{min(len(chunks), 6)}")
-    if via in ("list", "collection"):
+    if via in ("list", "collection", "collection_add"):
         binning = hgen.build_axis(ax)
         whole = ctx.call("h1(all)", physt.h1, np.array(data, dtype=float), hgen.build_axis(ax))
         parts = [ctx.call("h1(chunk)", physt.h1, np.array(c, dtype=float), hgen.build_axis(ax)) for c in chunks]
         if via == "list":
             total = ctx.call("sum(parts)", sum, parts)
+        elif via == "collection_add":
+            # a collection that starts empty (binning only) and receives its members one by one
+            col = ctx.call("HistogramCollection(binning=)", lambda: HistogramCollection(binning=hgen.build_axis(ax), name="parts"))
+            zero = ctx.call("empty collection.sum()", col.sum)
+            require(not np.any(np.asarray(zero.frequencies)) and np.asarray(zero.frequencies).shape == np.asarray(whole.frequencies).shape,
+                    "empty_collection_sum", f"{np.asarray(zero.frequencies).tolist()}")
+            for n_, p_ in enumerate(parts):
+                p_.name = f"part{n_}"
+                ctx.call("collection.add", col.add, p_)
+                require(f"part{n_}" in col and col[f"part{n_}"] is p_ and len(col) == n_ + 1, "collection_membership", f"part{n_}")
+            require("no such member" not in col, "collection_membership", "unknown name reported as a member")
+            import physt as _p
+            stranger = _p.h1([0.5], [0.0, 1.0, 99.0])
+            if not (len(whole.bins) == 2 and np.asarray(whole.bins).tolist() == [[0.0, 1.0], [1.0, 99.0]]):
+                ctx.refused("collection.add(histogram with other bins)", col.add, stranger)
+                require(len(col) == len(parts), "refused_add_changed_collection", "")
+            total = ctx.call("collection.sum()", col.sum)
         else:
             col = ctx.call("HistogramCollection", HistogramCollection, *parts)
             total = ctx.call("collection.sum()", col.sum)
@@ -378,7 +395,7 @@ def check_partition(case, ctx: Ctx):
 
 @st.composite
 def partition_cases(draw, tier="quick"):
-    via = draw(st.sampled_from(["list", "list", "collection", "dask"]))
+    via = draw(st.sampled_from(["list", "list", "collection", "collection_add", "dask"]))
     ax = draw(hgen.axis(1, 8, forms=("edges", "static", "numpy", "fixed"), gapped=False))
     n = draw(st.integers(0, 40))
     if via == "dask":
